@@ -76,6 +76,23 @@ def generate(rng, tier):
         ops = [("q", q)]
         if rng.random() < 0.5: ops = [("q", paths[-1][0]), ("r", len(paths) - 1)] + ops + [("q", q)]
         cases.append({"paths": paths, "bins": bins, "reverse": False, "ops": ops, "family": "oblong-cells/%s/bins%d/ratio%d" % ("tall" if tall else "wide", bins, ratio)})
+    # nearly closed paths: the two ends of a path differ by less than any drawing tolerance (a part in 10^9 .. 10^12) yet are distinct
+    # points, and a query beyond the end is nearer to the end than to the start: with reversal allowed the end's identifier is the answer
+    for _ in range(max(12, n // 16)):
+        np_ = rng.choice([1, 2, 3, 5]); paths = []
+        for _ in range(np_):
+            a = (F(rng.randint(10, 90)), F(rng.randint(10, 90))); t = F(1, 10 ** rng.choice([9, 10, 12]))
+            d = rng.choice([(t, F(0)), (F(0), t), (-t, F(0)), (t, t), (F(0), F(0))])
+            paths.append((a, (a[0] + d[0], a[1] + d[1])))
+        ops = []
+        for _ in range(rng.randint(2, 6)):
+            a, b = rng.choice(paths); k = rng.choice([1, 3, F(1, 4)])
+            sx = (b[0] > a[0]) - (b[0] < a[0]); sy = (b[1] > a[1]) - (b[1] < a[1])
+            ops.append(("q", rng.choice([(b[0] + k * sx, b[1] + k * sy), (a[0] - k * sx, a[1] - k * sy), b, a])))
+            if rng.random() < 0.25:
+                i = rng.randrange(np_)
+                if ("r", i) not in ops: ops.append(("r", i))
+        cases.append({"paths": paths, "bins": rng.choice([1, 2, 3, 10]), "reverse": rng.random() < 0.85, "ops": ops, "family": "nearly-closed-paths/n=%d" % np_})
     return cases
 
 def run_impl(c):
